@@ -44,7 +44,17 @@ def make_book():
         'Data!C1': put('Data', 1, 3, None, 'n'), 'Data!C2': put('Data', 2, 3, '=inp*2+A2', 'f', 0),
         # a kept sheet whose name extends the name of an ignored sheet, with a defined name on it
         'Skip2!A1': put('Skip2', 1, 1, 7, 'n'), 'Skip2!B1': put('Skip2', 1, 2, '=rate2*3', 'f', 21),
+        # the range of a defined name also written out directly; a name on a sheet whose name needs quotes; a named range that
+        # covers cells that are not stored; a named range on a sheet that may be ignored
+        'Data!B3': put('Data', 3, 2, '=SUM(A1:A2)+SUM(rng)', 'f', 6),
+        'My Sheet!B3': put('My Sheet', 3, 2, '=kq*2+SUM(qr)', 'f', 0),
+        'Data!B4': put('Data', 4, 2, '=SUM(wide)+COUNT(wide)', 'f', 0),
+        'Skip!C1': put('Skip', 1, 3, '=SUM(skr)', 'f', 0),
     }
+    wb.defined_names['kq'] = DefinedName('kq', attr_text="'My Sheet'!$B$1")
+    wb.defined_names['qr'] = DefinedName('qr', attr_text="'My Sheet'!$B$1:$B$2")
+    wb.defined_names['wide'] = DefinedName('wide', attr_text='Data!$A$1:$A$6')
+    wb.defined_names['skr'] = DefinedName('skr', attr_text='Skip!$A$1:$B$1')
     wb.defined_names['total'] = DefinedName('total', attr_text='Data!$B$1')
     wb.defined_names['rng'] = DefinedName('rng', attr_text='Data!$A$1:$A$2')
     wb.defined_names['inp'] = DefinedName('inp', attr_text='Data!$C$1')
@@ -86,14 +96,26 @@ def build(tier, seed):
         ev = Evaluator(m)
         if not (num_is(ev.evaluate('Data!B1'), a + b) and num_is(ev.evaluate('Data!B2'), a + b) and num_is(ev.evaluate('total'), a + b)):
             return False
+        # a named range whose text also occurs as a direct range; a named range covering cells that are not stored (A4:A6)
+        if not num_is(ev.evaluate('Data!B3'), 2 * (a + b)):
+            return False
+        t_num = isinstance(t, int) and not isinstance(t, bool)
+        r4 = ev.evaluate('Data!B4')
+        if not (num_is(r4, a + b + (t if t_num else 0) + (3 if t_num else 2)) or (t is True and num_is(r4, a + b + 3))):
+            return False          # (whether SUM counts a TRUE found in a range is not part of this property: both accepted)
         if not ig_my:
             c2 = m.get_cell_value('My Sheet!A1')
             if not (c2 == cached2 and m.cells['My Sheet!A1'].formula.formula == '=Data!B1*2'):
                 return False
             if not (num_is(ev.evaluate('My Sheet!A1'), 2 * (a + b)) and num_is(ev.evaluate('My Sheet!A2'), 2 * (a + b)) and num_is(ev.evaluate('My Sheet!B2'), k + 1)):
                 return False
+            # names bound to a cell / a range of the sheet whose name is quoted
+            if 'kq' not in m.defined_names or 'qr' not in m.defined_names:
+                return False
+            if not (num_is(ev.evaluate('kq'), k) and num_is(ev.evaluate('My Sheet!B3'), 2 * k + k + k + 1)):
+                return False
         if not ig_skip:
-            if not (m.cells['Skip!A1'].value == 99 and num_is(ev.evaluate('Skip!B1'), 99)):
+            if not (m.cells['Skip!A1'].value == 99 and num_is(ev.evaluate('Skip!B1'), 99) and num_is(ev.evaluate('Skip!C1'), 198)):
                 return False
         # the empty stored cell exists, its name is bound, a value set through the name reaches it
         if 'Data!C1' not in m.cells or 'inp' not in m.defined_names:
@@ -130,7 +152,7 @@ def build(tier, seed):
             obs.append(Ob(f'c11.adapter[workbook -> model, {label}]', mk(ig_s, ig_m),
                           pre=lambda a, b, t, cached, cached2, k: (not isinstance(t, str) or len(t) <= 2) and (not isinstance(cached2, str) or len(cached2) <= 2),
                           witness=[(1, 2, 'x', 3, 6, 5), (4, -4, True, 0, 'ab', 0), (0, 0, 7, 1, False, 1)], timeout=600, cost=60, family='c11.adapter',
-                          bounds='4 sheets (Data, "My Sheet", Skip, Skip2 - never ignored, its name extends Skip), 15 stored cells incl. an empty stored cell that is the target of a defined name: constants a, b, k (all ints), t over int / text(<=2) / bool, formulas with cached results (int; int/text/bool), '
+                          bounds='4 sheets (Data, "My Sheet", Skip, Skip2 - never ignored, its name extends Skip), 19 stored cells incl. an empty stored cell that is the target of a defined name, names for a cell and a range of the quoted sheet, a named range also written out directly, a named range covering cells that are not stored, a named range on the ignorable sheet: constants a, b, k (all ints), t over int / text(<=2) / bool, formulas with cached results (int; int/text/bool), '
                                  f'defined names for a cell and a range; {label}',
                           show=lambda *a: f'a={a[0]} b={a[1]} t={a[2]!r} cached={a[3]} cached2={a[4]!r} k={a[5]}'))
     return obs
